@@ -389,25 +389,25 @@ Example konst_id_examples :
   konst primfo (mkMeta " 42 " "" 0) real_of KAtId = VInt KI64 42 /\
   konst primfo (mkMeta "x9" "" 0) real_of KAtId = VInt KI64 0 /\
   konst primfo (mkMeta "9223372036854775808" "" 0) real_of KAtId = VInt KI64 0.
-Proof. intros. vm_compute. repeat split. Qed.
+Proof. intros. repeat split; reflexivity. Qed.
 
 (* ================= 12. non-vacuity ================= *)
 Example ex_add_wraps :
   arith primfo OAdd (VInt KI64 (2 ^ 63 - 1)) (VInt KI64 1) = Ok (VInt KI64 (- 2 ^ 63)).
-Proof. vm_compute. reflexivity. Qed.
+Proof. reflexivity. Qed.
 
 Example ex_compare_exact_above_2_53 :
   compare primfo CEq (VInt KI64 (2 ^ 53 + 1)) (VInt KI64 (2 ^ 53)) = Some false.
-Proof. vm_compute. reflexivity. Qed.
+Proof. reflexivity. Qed.
 
 Example ex_div_truncates :
   arith primfo ODiv (VInt KI64 (-7)) (VInt KI64 2) = Ok (VInt KI64 (-3)).
-Proof. vm_compute. reflexivity. Qed.
+Proof. reflexivity. Qed.
 
 Example ex_mixed_compare :
   compare primfo CLt (VInt KI64 (-1)) (VUint KU64 (2 ^ 64 - 1)) = Some true.
-Proof. vm_compute. reflexivity. Qed.
+Proof. reflexivity. Qed.
 
 Example ex_uint_wraps :
   arith primfo OSub (VUint KU64 0) (VUint KU64 1) = Ok (VUint KU64 (2 ^ 64 - 1)).
-Proof. vm_compute. reflexivity. Qed.
+Proof. reflexivity. Qed.
